@@ -10,8 +10,8 @@ Variable K : N -> V -> result V.
 Variable veq : V -> V -> bool.
 Variable opt : topts.
 Variable ov : N -> fov.
-Variable hu : N -> V -> V.                 (* unstructure handlers (total) *)
-Notation hs_u := (fun n v => Ok (hu n v)).
+Variable hs_u : N -> V -> result V.        (* the per-attribute unstructure handlers *)
+Variable hu : N -> V -> V.                 (* what they return on the instance's attribute values (see H_hu) *)
 Notation field := (field V).
 Notation key_of := (key_of V opt ov).
 Notation included := (included V opt ov).
@@ -23,6 +23,7 @@ Variable val : field -> V.                 (* the attribute values of the instan
 Let inc := filter included fs.
 Hypothesis H_vals : forall f, In f inc -> assoc i (f_name f) = Some (val f).
 Hypothesis H_keys : NoDup (map key_of inc).
+Hypothesis H_hu : forall f, In f inc -> hs_u (f_name f) (val f) = Ok (hu (f_name f) (val f)).
 
 Definition dfl (f : field) : option V := f_dflt f.
 Definition is_default (f : field) : bool := match f_dflt f with Some d => veq (val f) d | None => false end.
@@ -38,6 +39,7 @@ Proof.
   fold (lit_of l). destruct (omit_default f).
   - apply IH. intros g Hg. apply Hl. now right.
   - unfold getattr. rewrite (H_vals f) by (apply Hl; now left). cbn [bind].
+    rewrite (H_hu f) by (apply Hl; now left). cbn [bind].
     rewrite IH by (intros g Hg; apply Hl; now right). reflexivity.
 Qed.
 
@@ -114,7 +116,7 @@ Proof.
     unfold is_default. destruct (f_dflt f) as [d|] eqn:Ed.
     + destruct (veq (val f) d); cbn [negb].
       * apply IH; auto. intros g Hg. apply Hfresh. now right.
-      * cbn [bind]. rewrite (dict_set_fresh res _ _ (Hfresh f (or_introl eq_refl) Eo)).
+      * rewrite (H_hu f) by (apply Hl; now left). cbn [bind]. rewrite (dict_set_fresh res _ _ (Hfresh f (or_introl eq_refl) Eo)).
         rewrite IH; auto; [now rewrite <- app_assoc|].
         intros g Hg Hog. rewrite map_app, in_app_iff. intros [X|[X|[]]].
         -- revert X. apply Hfresh; [now right | assumption].
@@ -150,7 +152,7 @@ Qed.
 
 (* ================= round trip through the generated structure hook ================= *)
 Variable hs_s : N -> V -> result V.
-Hypothesis H_inverse : forall n v, hs_s n (hu n v) = Ok v.
+Hypothesis H_inverse : forall f, In f inc -> hs_s (f_name f) (hu (f_name f) (val f)) = Ok (val f).
 Hypothesis H_alias : NoDup (map (@f_alias V) fs).
 Hypothesis H_names : NoDup (map (@f_name V) fs).
 Hypothesis H_noconv : forall f, In f fs -> f_conv f = false.
@@ -234,16 +236,16 @@ Lemma good_D f : In f inc -> good' f = true.
 Proof.
   intros Hf. unfold good, fetch. cbn [o_in o_get dict_obj]. rewrite (mem_keys_D f Hf), (assoc_D f Hf).
   destruct (f_dflt f) eqn:Ed.
-  - destruct (emitted f); [|reflexivity]. cbn [bind]. now rewrite H_inverse.
-  - rewrite (required_emitted f Ed). cbn [bind]. now rewrite H_inverse.
+  - destruct (emitted f); [|reflexivity]. cbn [bind]. now rewrite (H_inverse f Hf).
+  - rewrite (required_emitted f Ed). cbn [bind]. now rewrite (H_inverse f Hf).
 Qed.
 
 Lemma contrib_D f : In f inc -> contrib' f = if emitted f then [(f_alias f, val f)] else [].
 Proof.
   intros Hf. unfold contrib, fetch. cbn [o_in o_get dict_obj]. rewrite (mem_keys_D f Hf), (assoc_D f Hf).
   destruct (f_dflt f) eqn:Ed.
-  - destruct (emitted f); [|reflexivity]. cbn [bind]. now rewrite H_inverse.
-  - rewrite (required_emitted f Ed). cbn [bind]. now rewrite H_inverse.
+  - destruct (emitted f); [|reflexivity]. cbn [bind]. now rewrite (H_inverse f Hf).
+  - rewrite (required_emitted f Ed). cbn [bind]. now rewrite (H_inverse f Hf).
 Qed.
 
 Lemma not_emitted_default f : emitted f = false -> f_dflt f = Some (val f).
